@@ -126,3 +126,129 @@ func (r *Raw) FrontendNF(name string) *Frontend {
 	}
 	return nil
 }
+
+// AuthStep is one access-control rule of a section that matters to external authentication.
+type AuthStep struct {
+	Kind   string     `json:"kind"`   // deny | intercept | redirect
+	Unless bool       `json:"unless"` // conditioned on the authentication having failed (deny/redirect after an intercept)
+	IDs    []string   `json:"ids"`    // `{ var(txn.pathID) -m str ... }`: path ids the rule is limited to (empty: not limited)
+	Base   [][]string `json:"base"`   // `{ var(req.base) -m str ... }`: patterns (characters) the rule is limited to
+	Allow  []string   `json:"allow"`  // `!{ path_beg X }`: requests whose path begins with X (characters) are exempt ([] = none)
+	Other  string     `json:"other"`  // any other condition (not interpreted: the rule is then not counted as a guard)
+	Raw    string     `json:"raw"`
+}
+
+// BackendNF is what decides, inside a backend, which path a request belongs to and whether it is guarded.
+type BackendNF struct {
+	Name   string     `json:"name"`
+	PathID []Step     `json:"pathid"` // the set-var(txn.pathID) lookups, in order
+	Auth   []AuthStep `json:"auth"`
+}
+
+var (
+	reCondIDs   = regexp.MustCompile(`\{ var\(txn\.pathID\) -m str((?: \S+)+?) \}`)
+	reCondBase  = regexp.MustCompile(`\{ var\(req\.base\) -m str((?: \S+)+?) \}`)
+	reCondFail  = regexp.MustCompile(`!\{ var\(txn\.auth_response_successful\) -m bool \}`)
+	reAllowPath = regexp.MustCompile(`!\{ path_beg (\S+) \}`)
+)
+
+func parseAuth(l string) *AuthStep {
+	var kind, rest string
+	switch {
+	case strings.HasPrefix(l, "http-request deny"):
+		kind, rest = "deny", strings.TrimPrefix(l, "http-request deny")
+	case strings.HasPrefix(l, "http-request lua.auth-intercept"):
+		kind = "intercept"
+		if i := strings.Index(l, " if "); i >= 0 {
+			rest = l[i:]
+		}
+	case strings.HasPrefix(l, "http-request redirect location"):
+		kind = "redirect"
+		if i := strings.Index(l, " if "); i >= 0 {
+			rest = l[i:]
+		}
+	default:
+		return nil
+	}
+	a := &AuthStep{Kind: kind, Raw: l, IDs: []string{}, Base: [][]string{}, Allow: []string{}}
+	rest = strings.TrimSpace(strings.TrimPrefix(strings.TrimSpace(rest), "if"))
+	if reCondFail.MatchString(rest) {
+		a.Unless = true
+		rest = reCondFail.ReplaceAllString(rest, "")
+	}
+	if m := reCondIDs.FindStringSubmatch(rest); m != nil {
+		a.IDs = strings.Fields(m[1])
+		rest = strings.Replace(rest, m[0], "", 1)
+	}
+	if m := reCondBase.FindStringSubmatch(rest); m != nil {
+		for _, p := range strings.Fields(m[1]) {
+			a.Base = append(a.Base, Chars(strings.Trim(p, "'")))
+		}
+		rest = strings.Replace(rest, m[0], "", 1)
+	}
+	if m := reAllowPath.FindStringSubmatch(rest); m != nil {
+		a.Allow = Chars(m[1])
+		rest = strings.Replace(rest, m[0], "", 1)
+	}
+	a.Other = strings.TrimSpace(rest)
+	return a
+}
+
+// AuthSteps lists the deny / auth-intercept / redirect rules of a section in order.
+func (r *Raw) AuthSteps(kind, name string) []AuthStep {
+	res := []AuthStep{}
+	for _, s := range r.Sections {
+		if s.Kind != kind || s.Name != name {
+			continue
+		}
+		for _, l := range s.Lines {
+			if a := parseAuth(l); a != nil {
+				res = append(res, *a)
+			}
+		}
+	}
+	return res
+}
+
+// BackendNF parses a backend section.
+func (r *Raw) BackendNF(name string) *BackendNF {
+	for _, s := range r.Sections {
+		if s.Kind != "backend" || s.Name != name {
+			continue
+		}
+		b := &BackendNF{Name: name, PathID: []Step{}, Auth: r.AuthSteps("backend", name)}
+		for _, l := range s.Lines {
+			m := reSetVar2.FindStringSubmatch(l)
+			if m == nil || m[1] != "txn.pathID" {
+				continue
+			}
+			mc := reMapCall.FindStringSubmatch(m[2])
+			if mc == nil {
+				continue
+			}
+			st := Step{Kind: "setvar", Var: m[1], Method: mc[1], Raw: l, Entries: []Entry{}}
+			switch {
+			case strings.HasPrefix(m[2], "var(req.base)"):
+				st.Key = "base"
+			case strings.HasPrefix(m[2], "str(<default>\\#),concat(,req.path)"):
+				st.Key = "defbase"
+			default:
+				st.Key = "other"
+			}
+			st.Lower = strings.Contains(m[2], ",lower,")
+			for _, e := range r.Files[mc[2]] {
+				fs := strings.Fields(e)
+				if len(fs) >= 2 {
+					st.Entries = append(st.Entries, Entry{K: Chars(fs[0]), V: fs[1]})
+				}
+			}
+			if g := reNotFound.FindStringSubmatch(m[3]); g != nil {
+				st.Guard = g[1]
+			}
+			st.HasHdr = strings.Contains(m[3], "hdr(")
+			b.PathID = append(b.PathID, st)
+		}
+		return b
+	}
+	return nil
+}
